@@ -218,6 +218,10 @@ def gen_stage(rng, profile=None):
     for s in states:
         rhs[s["name"]] = rand_mat(rng, s["shape"], shares[s["name"]], lv_x, depth=2)
     spec["rhs"] = rhs
+    cols = [s_ for s_ in states if s_["shape"][1] == 1]
+    if len(cols) >= 2 and rng.random() < 0.2:
+        # one set_der / set_next call for a concatenation of (column-valued) states
+        spec["rhs_concat"] = [s_["name"] for s_ in rng.sample(cols, 2)]
     if len(states) > 1 and rng.random() < 0.4:
         # set_der / set_next need not be called in the order the states were declared
         order = [s["name"] for s in states]
